@@ -8,7 +8,8 @@ Local Open Scope nat_scope.
 
 (* D is the derivative: evaluating e over dual numbers at the point r with tangent direction x yields (value, value of D e x).
    For polynomial e (polyb e = true) no function rule enters: this is the formal derivative, with no assumption at all;
-   for sigmoid/absv/exp/sin/cos/tanh the dual extension uses the rule PyRates/sympy apply (dfnI), see JacobianReal.v for K = R. *)
+   for sigmoid/absv/exp/sin/cos/tanh the dual extension uses the rule PyRates/sympy apply (dfnI); that these
+   rules are the derivatives of the real functions is not proved here (stretch, K = R with Coquelicot). *)
 Theorem C12_D_is_derivative : forall (K : Type) (O : ops K),
   ring_theory (o0 O) (o1 O) (oadd O) (omul O) (osub O) (oopp O) eq ->
   forall (r : atom -> K) (x : atom) (e : expr K),
